@@ -82,6 +82,19 @@ func allTunings() []tuning {
 	return out
 }
 
+// one read slot + datastore throttling from the second read on, default breadth: sibling branches
+// of a union / intersection / exclusion are cancelled (short circuit) while their reads sit in the
+// throttle delay.  Always part of the tuning sample of a request.
+var tightReads = tuning{Breadth: 10, Reads: 1, Throttle: false, DSThrot: true}
+
+// every Check gets this deadline: the generated stores are tiny (a Check takes milliseconds), so a
+// deadline-exceeded under some tuning is a change of the answer caused by tuning alone
+const checkDeadline = 4 * time.Second
+
+// after this many tuning-induced timeouts the remaining tuning matrix of the run is skipped (each
+// further one would cost checkDeadline again and adds nothing)
+const maxTimeouts = 3
+
 var plannerNames = []string{"default", "weight2", "recursive", "perkey", "percall"}
 
 type plannerH struct {
@@ -98,6 +111,7 @@ type chain struct {
 }
 
 type rig struct {
+	timeouts int
 	planners []*plannerH
 	seeded   []*scen.SeededPlanner
 	chains   map[string]*chain
@@ -160,12 +174,20 @@ func cmdOpts(t tuning) []commands.CheckQueryOption {
 		o = append(o, commands.WithCheckCommandMaxConcurrentReads(t.Reads))
 	}
 	if t.DSThrot {
-		o = append(o, commands.WithCheckDatastoreThrottler(true, 1, 30*time.Microsecond))
+		o = append(o, commands.WithCheckDatastoreThrottler(true, 1, 200*time.Microsecond))
 	}
 	return o
 }
 
 var defaultTuning = tuning{Breadth: 10}
+
+// checkDL runs one Check under the per-request deadline.
+func checkDL(ctx context.Context, env *scen.Env, r graph.CheckResolver, obj, rel, user string, opts ...commands.CheckQueryOption) int {
+	cctx, cancel := context.WithTimeout(ctx, checkDeadline)
+	defer cancel()
+	out, _ := env.Check(cctx, r, obj, rel, user, nil, opts...)
+	return out
+}
 
 // ---------------------------------------------------------------------------------------------
 // kind 1: scenarios
@@ -177,6 +199,7 @@ type runOpts struct {
 	fullNo  int // ... among those without
 	ntune   int // tuning combinations per (request, planner); 0 = all
 	maxReq  int // requests per scenario (random sample beyond that); 0 = all
+	only    [][2]string // replay: restrict to these (object, relation) requests
 }
 
 type cfgOut struct {
@@ -266,6 +289,17 @@ func runScenario(ctx context.Context, w *rec.Writer, r *rec.Rand, g *rig, s *sce
 				continue
 			}
 			for _, rd := range td.Rels {
+				if len(ro.only) > 0 {
+					keep := false
+					for _, x := range ro.only {
+						if x[0] == o && x[1] == rd.Name {
+							keep = true
+						}
+					}
+					if !keep {
+						continue
+					}
+				}
 				if ro.maxReq > 0 && total > ro.maxReq && !r.Chance(ro.maxReq, total) {
 					continue
 				}
@@ -276,7 +310,7 @@ func runScenario(ctx context.Context, w *rec.Writer, r *rec.Rand, g *rig, s *sce
 				}
 				before := g.seenNonDefault()
 				for p := 0; p < 3; p++ {
-					out, _ := env.Check(ctx, g.chain(p, defaultTuning).r, o, rd.Name, sub, nil)
+					out := checkDL(ctx, env, g.chain(p, defaultTuning).r, o, rd.Name, sub)
 					w.Stat("checks", 1)
 					q.outs[p][out] = true
 					q.detail = append(q.detail, cfgOut{plannerNames[p], defaultTuning.String(), outNames[out]})
@@ -331,7 +365,12 @@ func runScenario(ctx context.Context, w *rec.Writer, r *rec.Rand, g *rig, s *sce
 					ts = append(ts, tunings[i])
 				}
 			}
+			ts = append(append([]tuning{}, ts...), tightReads)
 			for _, t := range ts {
+				if g.timeouts >= maxTimeouts {
+					w.Stat("tunings_skipped_after_timeouts", 1)
+					continue
+				}
 				c := g.chain(p, t)
 				co := cmdOpts(t)
 				var wg sync.WaitGroup
@@ -340,16 +379,36 @@ func runScenario(ctx context.Context, w *rec.Writer, r *rec.Rand, g *rig, s *sce
 					wg.Add(1)
 					go func(k int) {
 						defer wg.Done()
-						got[k], _ = env.Check(ctx, c.r, q.obj, q.rel, q.sub, nil, co...)
+						got[k] = checkDL(ctx, env, c.r, q.obj, q.rel, q.sub, co...)
 					}(k)
 				}
 				wg.Wait()
 				w.Stat("checks", reps)
+				if t.Reads == 1 && t.DSThrot {
+					w.Stat("checks_reads1_dsthrottle", reps)
+					if q.base == scen.OutAllowed {
+						w.Stat("checks_reads1_dsthrottle_on_allowed", reps)
+					}
+				}
+				timedOut := false
 				for _, out := range got {
 					if !q.outs[p][out] {
 						q.detail = append(q.detail, cfgOut{plannerNames[p], t.String(), outNames[out]})
 					}
 					q.outs[p][out] = true
+					if out == scen.OutTimeout {
+						timedOut = true
+					}
+				}
+				if timedOut && q.base != scen.OutTimeout {
+					// the reference configuration (same planner family, default tuning) decided this
+					// request in milliseconds: the tuning alone turned the answer into a timeout
+					g.timeouts++
+					w.Stat("tuning_timeouts", 1)
+					w.PropFail(fmt.Sprintf("answer depends on tuning: Check(%s#%s@%s) planner=%s %s ends in deadline-exceeded (%s) although the default tuning answers %s at once",
+						q.obj, q.rel, q.sub, plannerNames[p], t.String(), checkDeadline, outNames[q.base]),
+						map[string]any{"kind": 1, "scenario": s, "subjects": []string{q.sub},
+							"only": [][2]string{{q.obj, q.rel}}, "planner": plannerNames[p], "tuning": t.String(), "text": s.String()})
 				}
 			}
 		}
@@ -421,6 +480,7 @@ type replayDesc struct {
 	Kind     int            `json:"kind"`
 	Scenario *scen.Scenario `json:"scenario"`
 	Subjects []string       `json:"subjects"`
+	Only     [][2]string    `json:"only"`
 }
 
 func main() {
@@ -458,7 +518,9 @@ func main() {
 			switch d.Kind {
 			case 1:
 				if d.Scenario != nil {
-					runScenario(ctx, w, rec.NewRand(1), g, d.Scenario, d.Subjects, ro)
+					ro1 := ro
+					ro1.only = d.Only
+					runScenario(ctx, w, rec.NewRand(1), g, d.Scenario, d.Subjects, ro1)
 				}
 			case 5:
 				if d.Scenario != nil {
